@@ -8,7 +8,11 @@ first k results (k <= 6).  Three measurements of (results, pulls, lambda applica
   model   Yaql.Model.Stream (the cost model the causal_* / cost_tight_* theorems are about).
 Oracle (failing input, real code alone + transcription): no result within the watchdog, wrong
 results, or pulls > ref + 1 / applications > ref + 1.
-Mismatch: the model's cost is undercut / its results differ although the oracle holds."""
+Mismatch: the model's cost is undercut / its results differ although the oracle holds.
+
+Secondary lazy collection arguments: the same three measurements for `<list>.op(<pipeline over $src>, ..)` with op in
+join (second collection), zip, zipLongest, concat, +, insertMany, replaceMany, defaultIfEmpty, selectMany (lazy selector
+result): the instrumented source feeds the SECOND argument, the receiver is a constant (possibly empty / an iterator)."""
 import itertools
 import json
 import signal
@@ -45,6 +49,8 @@ TRUSTED = ['instrumentation: pulls are counted in __next__ of the host iterator 
            'applications by a registered tick() evaluated first in every lambda (`tick() and (<lambda>)`)',
            'harness/gens/streamfacts.py (AST classification of how each streaming payload uses its source parameter)']
 ASSUMPTIONS = ['endless sources are arithmetic-periodic integer sequences (or dicts {a: int}); k <= 6; <= 4 stages',
+               'secondary-argument cases: receiver = list literal of <= 3 integers (optionally behind a probe-free where), '
+               'feeding pipeline <= 3 stages, <= 1 stage behind the operator; finite sources count the elements handed out',
                'a case is only run when the model produces the k results within the first 150 source elements']
 
 N_PREFIX = 150
@@ -733,7 +739,9 @@ def run(env, res):
     drv = env['driver']
     tier = env['tier']
     rng = common.make_rng(env['seed'], 'C14')
-    res.rule = ('pipelines of <= 4 streaming operators (each of the 27 listed operators is the focus of an equal share) '
+    res.rule = ('secondary lazy collection arguments of join/zip/zipLongest/concat/+/insertMany/replaceMany/defaultIfEmpty/'
+                'selectMany fed by a pipeline over the instrumented source (endless or finite, receiver constant, possibly empty); '
+                'and pipelines of <= 4 streaming operators (each of the 27 listed operators is the focus of an equal share) '
                 'over an instrumented endless arithmetic-periodic source, k in 0..6, lambdas from the Lam family containing '
                 'tick(); distinct = distinct (expression, source); non-trivial = the case was run (model produces the k '
                 'results within %d source elements) and at least one element was pulled' % N_PREFIX)
@@ -797,7 +805,9 @@ LEVEL_TEXT = ('Lean 4 theorems about a cost model in which every streaming opera
               'pull, per pulled element, at exhaustion) and every produced element is stamped with the number of source '
               'elements pulled and of lambda applications made: causality for ANY machine and for pipelines of ANY length '
               '(the results produced within n pulls, with their stamps, depend on the first n source elements only - '
-              'causal, causal_pipeline, causal_<op> for the 25 listed operators), explicit cost formulas / bounds per '
+              'causal, causal_pipeline, causal_<op> for the 25 listed operators and for the machines over a SECONDARY lazy '
+              'collection argument: join inner side, zip/zipLongest/concat/+ further collections, insertMany/replaceMany values, '
+              'defaultIfEmpty default, selectMany result), explicit cost formulas / bounds per '
               'operator (cost_tight_*), the cost of a pipeline as the composition of the stage costs (compose_cost, '
               'runPipe_ext) and totality on endless sources with fuel = cost (endless_total). The model is tied to the code '
               'by running generated pipelines on an instrumented endless source with tick() in every lambda against the '
